@@ -378,6 +378,49 @@ def gs_funcs(name, total):
 
 GS_NAMES = ["ident", "sum", "x(T-x)", "poly2", "cube"]
 
+# how the custom summary function hands its values back to the C trampoline
+# (python/_tskitmodule.c general_stat_func): the statistic must not depend on the memory
+# layout of the returned object
+GS_RETURNS = ["fresh", "fresh", "list", "colview", "strided", "reversed", "fortran_row",
+              "readonly", "float32", "diag"]
+
+
+def gs_return(vals, how):
+    """the same numbers in a different container / memory layout; the cells around the
+    view hold large garbage so that reading adjacent memory is visible"""
+    import numpy as np
+    m = len(vals)
+    if how == "list":
+        return [float(v) for v in vals]
+    if how == "colview":
+        work = np.full((m, 3), -7.25e5)
+        work[:, 0] = vals
+        return work[:, 0]
+    if how == "strided":
+        buf = np.full(2 * m + 1, 9.5e5)
+        buf[::2][:m] = vals
+        return buf[::2][:m]
+    if how == "reversed":
+        buf = np.full(m + 2, -3.5e5)
+        buf[1:m + 1] = list(vals)[::-1]
+        return buf[1:m + 1][::-1]
+    if how == "fortran_row":
+        M = np.asfortranarray(np.full((3, m), 6.25e5))
+        M[1, :] = vals
+        return M[1, :]
+    if how == "diag":
+        D = np.full((m, m), 4.75e5)
+        for i_, v in enumerate(vals):
+            D[i_, i_] = v
+        return np.diagonal(D)
+    a = np.array(vals, dtype=float)
+    if how == "readonly":
+        a.setflags(write=False)
+        return a
+    if how == "float32":
+        return a.astype(np.float32)
+    return a
+
 
 # ---------------------------------------------------------------------------------
 # float <-> exact comparison
@@ -641,7 +684,8 @@ class GeneralStat(Family):
                 sets = random_sample_sets(rng, desc, 1, 3)
                 W = None
             case = {"desc": desc, "api": api, "W": W, "sample_sets": sets,
-                    "f": rng.choice(GS_NAMES), "mode": rng.choice(["site", "branch", "node"]),
+                    "f": rng.choice(GS_NAMES), "ret": rng.choice(GS_RETURNS),
+                    "mode": rng.choice(["site", "branch", "node"]),
                     "polarised": rng.random() < 0.5, "span_normalise": rng.random() < 0.6,
                     "windows": random_windows(rng, desc)}
             yield with_refinement(rng, case, desc)
@@ -663,8 +707,12 @@ class GeneralStat(Family):
         total = [float(sum(W[s][j] for s in W)) for j in range(k)]
         f, m, strict = gs_funcs(case["f"], total)
 
+        how = case.get("ret", "fresh")
+        if how == "float32" and case["f"] not in ("ident", "sum"):
+            how = "fresh"       # keep the values exactly representable
+
         def npf(x):
-            return np.array(f(x), dtype=float)
+            return gs_return(f(x), how)
         kw = dict(polarised=case["polarised"], mode=case["mode"],
                   span_normalise=case["span_normalise"], strict=strict)
 
@@ -730,7 +778,7 @@ class GeneralStat(Family):
 
     def describe(self, case, obs):
         w = case["windows"]
-        return {"mode": case["mode"], "api": case["api"], "f": case["f"],
+        return {"mode": case["mode"], "api": case["api"], "f": case["f"], "ret": case.get("ret", "fresh"),
                 "windows": w if isinstance(w, str) else "list%d" % (len(w) - 1),
                 "polarised": case["polarised"], "span_normalise": case["span_normalise"]}
 
@@ -1597,16 +1645,18 @@ class Matrix(Family):
                                       "num_threads=%s differs from single-threaded: %s" % (t, "; ".join(msgs[:2]))))
                         break
         # docstring: branch mode equals genetic_relatedness(centre=True, proportion=False)
-        if case["mode"] == "branch" and not isinstance(obs["genetic_relatedness_matrix"], dict) and len(case["sets"]) >= 2:
+        one_mut = all(sum(1 for m_ in desc["mutations"] if m_[0] == si) <= 1 for si in range(len(desc["sites"])))
+        if ((case["mode"] == "branch" or one_mut) and not isinstance(obs["genetic_relatedness_matrix"], dict)
+                and len(case["sets"]) >= 2):
             N = len(case["sets"])
             idx = [(i, j) for i in range(N) for j in range(N)]
-            c2 = {"stat": "genetic_relatedness", "mode": "branch", "sets": case["sets"], "indexes": idx,
+            c2 = {"stat": "genetic_relatedness", "mode": case["mode"], "sets": case["sets"], "indexes": idx,
                   "centre": True, "polarised": True, "span_normalise": case["span_normalise"]}
             R = named_exact(desc, c2, wins)
             R = [[[row[i * N + j] for j in range(N)] for i in range(N)] for row in R]
             msgs = compare(obs["genetic_relatedness_matrix"], R[0] if single else R)
             if msgs:
-                fails.append(("grm-vs-genetic_relatedness/branch", "; ".join(msgs[:3])))
+                fails.append(("grm-vs-genetic_relatedness/%s" % case["mode"], "; ".join(msgs[:3])))
         return fails
 
     def nontrivial(self, case, obs):
@@ -1821,9 +1871,19 @@ class Dedicated(Family):
 
     def oracle(self, case, obs):
         what = case["what"]
+        desc = case["desc"]
+        if what == "pair_coalescence_counts" and case.get("time_windows"):
+            # explicit refusal (python/_tskitmodule.c "Node-to-bin map has null values for all
+            # nodes"): no node time falls into any of the time windows
+            tw = [None if x is None else fr(x) for x in case["time_windows"]]
+            inside = any(tw[0] <= Fr(nd[1]) and (tw[-1] is None or Fr(nd[1]) < tw[-1]) for nd in desc["nodes"])
+            if not inside:
+                if obs.get("err") == "ValueError" and "null values for all nodes" in obs.get("msg", ""):
+                    return []
+                return [("pair_coalescence_counts/empty-time-windows-accepted",
+                         "no node time lies in the time windows, expected the documented ValueError, got %r" % (obs,))]
         if "err" in obs:
             return [("unexpected-error/%s" % what, "%s: %s" % (obs["err"], obs["msg"]))]
-        desc = case["desc"]
         fails = []
         if what == "mean_descendants":
             exact = mean_descendants_exact(desc, case["sets"])
